@@ -385,6 +385,8 @@ def patAsExpr : T → Option T
   | _ => none
 
 def fnArgAsExpr : T → Option T
+  -- a by-value `mut self` receiver: its `mut` is dropped in generated signatures since /repo 19cb482 — unmodelled, like other patterns
+  | .node "FnArg::Receiver" [] [.node "Receiver" [] [_, .node "None" [] [], .node "Some" ["Mut"] [], _, _]] => none
   | .node "FnArg::Receiver" _ _ => some (identExpr "self")
   | .node "FnArg::Typed" [] [.node "PatType" [] [_, pat, _]] => patAsExpr pat
   | _ => none
